@@ -172,3 +172,11 @@ func verifLemmaRoundTripEthernet(eth *Ethernet, b gopacket.SerializeBuffer, df g
 //@   props C17
 //@   requires len(u.sPort) <= 16 && len(u.dPort) <= 16
 //@   ensures flowOf(result, u.sPort, u.dPort)
+
+// ---- DNS name decompression terminates (C19 / C01: "never runs away") ----------------------------------------------
+
+// Every compression pointer is followed with a strictly larger level, and no level above maxRecursionLevel (255)
+// is entered: the recursion depth is bounded whatever cycle the pointers form.
+//@ func decodeName(data []byte, offset int, buffer *[]byte, level int) ([]byte, dnsNameLabels, int, error)
+//@   props C19 C01
+//@   decreases 256 - level
